@@ -21,10 +21,32 @@
 #define VERIF_T double
 #endif
 
+// the same harness serves the shim-MPI clauses of other properties: VERIF_AS selects which groups of assertions are
+// active and under which property id a violation is reported (4 = C04: everything)
+#ifndef VERIF_AS
+#define VERIF_AS 4
+#endif
+
 namespace
 {
 
 using T = VERIF_T;
+
+enum Cat { ALWAYS, DIFF, STATE, COLL, OUT, SHARE, POS, RANKS };
+
+constexpr bool cat_on(Cat k)
+{
+    // SHARE: per-rank call counts; POS: the shares are contiguous pieces of the serial stream and every rank ends at the
+    // same position; STATE: result k+1 records the refinement of result k; COLL: collective sequences / iteration counts;
+    // RANKS: all ranks return the same checkpoint; OUT: only rank 0 prints / writes; DIFF: counters and sums vs serial
+    return k == ALWAYS || VERIF_AS == 4 || (VERIF_AS == 16 && (k == SHARE || k == POS)) || (VERIF_AS == 19 && (k == STATE || k == POS))
+        || (VERIF_AS == 8 && k == STATE) || (VERIF_AS == 12 && (k == COLL || k == RANKS)) || (VERIF_AS == 20 && (k == OUT || k == RANKS));
+}
+
+#define VF_STR2(x) #x
+#define VF_STR(x) VF_STR2(x)
+#define MPI_SIG(name) ((VERIF_AS == 4 ? std::string("C04") : VERIF_AS == 8 ? std::string("C08") : std::string("C") + VF_STR(VERIF_AS)) + ":mpi-" + name)
+#define MPI_CHECK(cat, ctx, cond, sig, streamed) do { if (cat_on(cat)) { VF_CHECK(ctx, cond, sig, streamed); } } while (0)
 
 // --- who prints / who opens the checkpoint file ------------------------------------------------------
 struct RankBuf : std::streambuf
@@ -120,38 +142,38 @@ void compare_results(vf::Ctx& c, Res const& mpi, Res const& ser, std::size_t k, 
 {
     long double const eps = vf::eps<T>();
     auto cmp = [&](hep::mc_result<T> const& a, hep::mc_result<T> const& b, std::string const& what) {
-        VF_CHECK(c, a.calls() == b.calls() && a.non_zero_calls() == b.non_zero_calls() && a.finite_calls() == b.finite_calls(), "C04:counters",
+        MPI_CHECK(DIFF, c, a.calls() == b.calls() && a.non_zero_calls() == b.non_zero_calls() && a.finite_calls() == b.finite_calls(), MPI_SIG("counters"),
             "iteration " << k << ' ' << what << ": counters " << a.calls() << '/' << a.non_zero_calls() << '/' << a.finite_calls() << " (MPI) vs " << b.calls() << '/'
             << b.non_zero_calls() << '/' << b.finite_calls() << " (serial)");
         long double const n = static_cast<long double>(b.calls() ? b.calls() : 1);
         long double const bound = std::sqrt(n * static_cast<long double>(b.sum_of_squares())) + std::fabs(static_cast<long double>(b.sum()));
         long double const tol = 4 * (P + 2) * eps * bound + 1e-300L;
         c.note_margin(tol, std::fabs(static_cast<long double>(a.sum()) - b.sum()));
-        VF_CHECK(c, close_enough(a.sum(), b.sum(), tol), "C04:sum", "iteration " << k << ' ' << what << ": sum " << vf::show(a.sum()) << " (MPI) vs " << vf::show(b.sum()) << " (serial)");
+        MPI_CHECK(DIFF, c, close_enough(a.sum(), b.sum(), tol), MPI_SIG("sum"), "iteration " << k << ' ' << what << ": sum " << vf::show(a.sum()) << " (MPI) vs " << vf::show(b.sum()) << " (serial)");
         // the sum of squares is an uncompensated sum: two summation orders of n terms differ by up to ~ n eps
-        VF_CHECK(c, close_enough(a.sum_of_squares(), b.sum_of_squares(), (n + 4 * (P + 2)) * eps * static_cast<long double>(b.sum_of_squares()) + 1e-300L), "C04:sum-of-squares",
+        MPI_CHECK(DIFF, c, close_enough(a.sum_of_squares(), b.sum_of_squares(), (n + 4 * (P + 2)) * eps * static_cast<long double>(b.sum_of_squares()) + 1e-300L), MPI_SIG("sum-of-squares"),
             "iteration " << k << ' ' << what << ": sum of squares " << vf::show(a.sum_of_squares()) << " vs " << vf::show(b.sum_of_squares()));
     };
     cmp(mpi, ser, "result");
-    VF_CHECK(c, mpi.distributions().size() == ser.distributions().size(), "C04:distributions", "iteration " << k << ": distribution count");
+    MPI_CHECK(DIFF, c, mpi.distributions().size() == ser.distributions().size(), MPI_SIG("distributions"), "iteration " << k << ": distribution count");
     for (std::size_t d = 0; d != ser.distributions().size(); ++d)
     {
         auto const& bm = mpi.distributions()[d].results();
         auto const& bs = ser.distributions()[d].results();
-        VF_CHECK(c, bm.size() == bs.size(), "C04:distributions", "iteration " << k << ": bin count");
-        VF_CHECK(c, mpi.distributions()[d].parameters().name() == ser.distributions()[d].parameters().name(), "C04:distributions", "distribution name");
+        MPI_CHECK(DIFF, c, bm.size() == bs.size(), MPI_SIG("distributions"), "iteration " << k << ": bin count");
+        MPI_CHECK(DIFF, c, mpi.distributions()[d].parameters().name() == ser.distributions()[d].parameters().name(), MPI_SIG("distributions"), "distribution name");
         for (std::size_t b = 0; b != bs.size(); ++b) { cmp(bm[b], bs[b], "distribution " + std::to_string(d) + " bin " + std::to_string(b)); }
     }
 }
 
 void compare_vectors(vf::Ctx& c, std::vector<T> const& mpi, std::vector<T> const& ser, std::size_t k, int P, char const* what, std::size_t n)
 {
-    VF_CHECK(c, mpi.size() == ser.size(), "C04:adjustment-data", what << " size");
+    MPI_CHECK(DIFF, c, mpi.size() == ser.size(), MPI_SIG("adjustment-data"), what << " size");
     for (std::size_t i = 0; i != ser.size(); ++i)
     {
         // uncompensated sums of up to n non-negative terms
         long double const tol = (n + 4 * (P + 2)) * vf::eps<T>() * std::fabs(static_cast<long double>(ser[i])) + 1e-300L;
-        VF_CHECK(c, close_enough(mpi[i], ser[i], tol), "C04:adjustment-data", "iteration " << k << ": " << what << '[' << i << "] " << vf::show(mpi[i]) << " (MPI) vs "
+        MPI_CHECK(DIFF, c, close_enough(mpi[i], ser[i], tol), MPI_SIG("adjustment-data"), "iteration " << k << ": " << what << '[' << i << "] " << vf::show(mpi[i]) << " (MPI) vs "
             << vf::show(ser[i]) << " (serial)");
     }
 }
@@ -230,7 +252,7 @@ struct Mpi<E, vf::VEGAS>
             auto const& got = chk.results()[k + 1].pdf();
             bool same = expect.bins() == got.bins() && expect.dimensions() == got.dimensions();
             for (std::size_t d = 0; same && d != got.dimensions(); ++d) { for (std::size_t b = 0; b <= got.bins(); ++b) { if (!vf::same_bits(expect.bin_left(d, b), got.bin_left(d, b))) { same = false; } } }
-            VF_CHECK(c, same, "C04:state-threading", "MPI: result " << (k + 1) << " does not record the refinement of result " << k);
+            if (VERIF_AS != 8) { MPI_CHECK(STATE, c, same, MPI_SIG("state-threading"), "MPI: result " << (k + 1) << " does not record the refinement of result " << k); }
         }
     }
 };
@@ -258,7 +280,7 @@ struct Mpi<E, vf::MULTI>
         if (k + 1 < chk.results().size())
         {
             auto const expect = hep::multi_channel_refine_weights(chk.results()[k].channel_weights(), chk.results()[k].adjustment_data(), chk.min_weight(), chk.beta());
-            VF_CHECK(c, vf::same_bits(expect, chk.results()[k + 1].channel_weights()), "C04:state-threading", "MPI: result " << (k + 1) << " records weights "
+            MPI_CHECK(STATE, c, vf::same_bits(expect, chk.results()[k + 1].channel_weights()), MPI_SIG("state-threading"), "MPI: result " << (k + 1) << " records weights "
                 << vf::show(chk.results()[k + 1].channel_weights()) << ", the refinement of result " << k << " is " << vf::show(expect));
         }
     }
@@ -305,40 +327,44 @@ void run_case(vf::Ctx& c, vf::RunCfg<T> const& cfg, std::vector<std::size_t> con
     std::cout.rdbuf(old);
     g_tracked_file.clear();
 
-    VF_CHECK(c, !world.hang(), "C04:hang", "the ranks do not execute the same sequence of collectives: " << world.hang_text());
-    VF_CHECK(c, world.errors().empty(), "C04:collective-mismatch", (world.errors().empty() ? std::string() : world.errors()[0]));
-    for (int r = 0; r != P; ++r) { VF_CHECK(c, outs[r] != nullptr, "C04:rank-failed", "rank " << r << " did not return a checkpoint"); }
+    MPI_CHECK(ALWAYS, c, !world.hang(), MPI_SIG("hang"), "the ranks do not execute the same sequence of collectives: " << world.hang_text());
+    MPI_CHECK(ALWAYS, c, world.errors().empty(), MPI_SIG("collective-mismatch"), (world.errors().empty() ? std::string() : world.errors()[0]));
+    for (int r = 0; r != P; ++r) { MPI_CHECK(ALWAYS, c, outs[r] != nullptr, MPI_SIG("rank-failed"), "rank " << r << " did not return a checkpoint"); }
     for (int r = 1; r != P; ++r)
     {
-        VF_CHECK(c, world.log()[r] == world.log()[0], "C04:collective-sequence", "rank " << r << " issued " << world.log()[r].size() << " collectives, rank 0 " << world.log()[0].size()
+        MPI_CHECK(COLL, c, world.log()[r] == world.log()[0], MPI_SIG("collective-sequence"), "rank " << r << " issued " << world.log()[r].size() << " collectives, rank 0 " << world.log()[0].size()
             << " (or with different counts / datatypes)");
+    }
+    for (int r = 1; r != P; ++r)
+    {
+        MPI_CHECK(POS, c, outs[r]->generator() == outs[0]->generator(), MPI_SIG("end-position"), "rank " << r << " ends at a different position of the random number stream than rank 0");
     }
     std::string const text0 = vf::text_of(*outs[0]);
     for (int r = 1; r != P; ++r)
     {
         std::string const tr = vf::text_of(*outs[r]);
-        VF_CHECK(c, tr == text0, "C04:ranks-differ", "rank " << r << " returns a different checkpoint than rank 0: " << first_diff(text0, tr));
+        MPI_CHECK(RANKS, c, tr == text0, MPI_SIG("ranks-differ"), "rank " << r << " returns a different checkpoint than rank 0: " << first_diff(text0, tr));
     }
     // output and files on rank 0 only
-    for (int r = 1; r != P; ++r) { VF_CHECK(c, rb.chars[r] == 0, "C04:non-root-output", "rank " << r << " wrote " << rb.chars[r] << " characters to std::cout"); }
+    for (int r = 1; r != P; ++r) { MPI_CHECK(OUT, c, rb.chars[r] == 0, MPI_SIG("non-root-output"), "rank " << r << " wrote " << rb.chars[r] << " characters to std::cout"); }
     bool const verbose = mode == 1 || mode == 3, writes = mode >= 2;
     Chk const& chk = *outs[0];
     std::size_t const performed = chk.results().size();
-    if (performed > 0) { VF_CHECK(c, (rb.chars[0] > 0) == verbose, "C04:root-output", "rank 0 printed " << rb.chars[0] << " characters in mode " << mode); }
-    for (int r : g_openers) { VF_CHECK(c, r == 0, "C04:non-root-file", "rank " << r << " opened the checkpoint file for writing"); }
+    if (performed > 0) { MPI_CHECK(OUT, c, (rb.chars[0] > 0) == verbose, MPI_SIG("root-output"), "rank 0 printed " << rb.chars[0] << " characters in mode " << mode); }
+    for (int r : g_openers) { MPI_CHECK(OUT, c, r == 0, MPI_SIG("non-root-file"), "rank " << r << " opened the checkpoint file for writing"); }
     if (writes && performed > 0)
     {
-        VF_CHECK(c, !g_openers.empty(), "C04:file-missing", "no rank wrote the checkpoint file");
+        MPI_CHECK(OUT, c, !g_openers.empty(), MPI_SIG("file-missing"), "no rank wrote the checkpoint file");
         std::ifstream in(file);
         std::stringstream ss;
         ss << in.rdbuf();
-        VF_CHECK(c, ss.str() == text0, "C04:file-differs", "the checkpoint file differs from the returned checkpoint");
+        MPI_CHECK(OUT, c, ss.str() == text0, MPI_SIG("file-differs"), "the checkpoint file differs from the returned checkpoint");
     }
     std::remove(file.c_str());
     std::remove((file + ".tmp").c_str());
 
-    VF_CHECK(c, performed <= calls.size() && (target > T(0) || performed == calls.size()), "C04:iterations", "performed " << performed << " of " << calls.size() << " iterations");
-    for (int r = 0; r != P; ++r) { VF_CHECK(c, logs[r].cuts.size() == performed, "C04:callback-count", "rank " << r << " saw " << logs[r].cuts.size() << " callbacks for " << performed << " iterations"); }
+    MPI_CHECK(COLL, c, performed <= calls.size() && (target > T(0) || performed == calls.size()), MPI_SIG("iterations"), "performed " << performed << " of " << calls.size() << " iterations");
+    for (int r = 0; r != P; ++r) { MPI_CHECK(COLL, c, logs[r].cuts.size() == performed, MPI_SIG("callback-count"), "rank " << r << " saw " << logs[r].cuts.size() << " callbacks for " << performed << " iterations"); }
 
     // per iteration: the serial iteration from the recorded generator and state
     for (std::size_t k = 0; k != performed; ++k)
@@ -358,21 +384,21 @@ void run_case(vf::Ctx& c, vf::RunCfg<T> const& cfg, std::vector<std::size_t> con
             std::size_t const b0 = k ? logs[r].cuts[k - 1] : 0, b1 = logs[r].cuts[k];
             std::size_t const share = b1 - b0;
             std::size_t const lo = calls[k] / P, rem = calls[k] % P;
-            VF_CHECK(c, share == lo + (static_cast<std::size_t>(r) < rem ? 1 : 0), "C04:share", "iteration " << k << ": rank " << r << " evaluated " << share << " points of " << calls[k]
+            MPI_CHECK(SHARE, c, share == lo + (static_cast<std::size_t>(r) < rem ? 1 : 0), MPI_SIG("share"), "iteration " << k << ": rank " << r << " evaluated " << share << " points of " << calls[k]
                 << " with " << P << " ranks");
             total += share;
             concat.insert(concat.end(), logs[r].recs.begin() + b0, logs[r].recs.begin() + b1);
         }
-        VF_CHECK(c, total == calls[k], "C04:share-sum", "iteration " << k << ": the ranks evaluated " << total << " points in total, requested " << calls[k]);
+        MPI_CHECK(SHARE, c, total == calls[k], MPI_SIG("share-sum"), "iteration " << k << ": the ranks evaluated " << total << " points in total, requested " << calls[k]);
         // (2) the same points in rank order
-        VF_CHECK(c, slog.recs.size() == calls[k], "C04:serial-reference", "serial reference evaluated " << slog.recs.size());
+        MPI_CHECK(DIFF, c, slog.recs.size() == calls[k], MPI_SIG("serial-reference"), "serial reference evaluated " << slog.recs.size());
         for (std::size_t i = 0; i != concat.size(); ++i)
         {
-            VF_CHECK(c, concat[i] == slog.recs[i], "C04:points-differ", "iteration " << k << ": point " << i << " of the concatenated rank logs differs from the serial run from the same state: "
+            MPI_CHECK(POS, c, concat[i] == slog.recs[i], MPI_SIG("points-differ"), "iteration " << k << ": point " << i << " of the concatenated rank logs differs from the serial run from the same state: "
                 << vf::show(concat[i].point) << " vs " << vf::show(slog.recs[i].point) << " (calls " << calls[k] << ", " << P << " ranks)");
         }
         // (3) the stored generator
-        VF_CHECK(c, gen == after.generator(), "C04:generator", "iteration " << k << ": the generator stored by the MPI run is not the serial generator after " << calls[k] << " calls");
+        MPI_CHECK(POS, c, gen == after.generator(), MPI_SIG("generator"), "iteration " << k << ": the generator stored by the MPI run is not the serial generator after " << calls[k] << " calls");
         // (4) counters, sums, adaptive data
         compare_results(c, static_cast<hep::plain_result<T> const&>(chk.results()[k]), static_cast<hep::plain_result<T> const&>(serial), k, P);
         M::state_checks(c, chk, k, serial, P);
@@ -459,4 +485,16 @@ void run(vf::Ctx& c)
 
 } // namespace
 
+#if VERIF_AS == 4
 vf::Property const vf::property = {"C04", "", run, nullptr, nullptr};
+#elif VERIF_AS == 8
+vf::Property const vf::property = {"C08", "", run, nullptr, nullptr};
+#elif VERIF_AS == 12
+vf::Property const vf::property = {"C12", "", run, nullptr, nullptr};
+#elif VERIF_AS == 16
+vf::Property const vf::property = {"C16", "", run, nullptr, nullptr};
+#elif VERIF_AS == 19
+vf::Property const vf::property = {"C19", "", run, nullptr, nullptr};
+#else
+vf::Property const vf::property = {"C20", "", run, nullptr, nullptr};
+#endif
